@@ -128,9 +128,34 @@ def run_front(c, data, out):
     return {"status": "ok", "errors": res}
 
 
+def run_named(c, data, out):
+    """every named-torsion helper under every (periodic, opt) combination on a trajectory with a unit cell"""
+    k = c["id"]
+    top = build_top(c["chains"])
+    t = md.Trajectory(np.array(data["n%d_xyz" % k], dtype=np.float32, copy=True), top)
+    if c["has_box"]:
+        t.unitcell_vectors = np.array(data["n%d_box" % k], dtype=np.float32, copy=True)
+    res = {"indices": {}, "same": {}}
+    for nm in NAMES:
+        for per in (True, False):
+            for opt in (True, False):
+                tag = "%s_%d%d" % (nm, int(per), int(opt))
+                i2, ang = getattr(md, "compute_" + nm)(t, periodic=per, opt=opt)
+                i2 = np.asarray(i2).reshape(-1, 4).astype(int)
+                res["indices"][nm] = i2.tolist()
+                ang = np.asarray(ang)
+                out["n%d_%s" % (k, tag)] = ang
+                if len(i2):
+                    ref = np.asarray(md.compute_dihedrals(t, i2, periodic=per, opt=opt))
+                    res["same"][tag] = bool(ang.shape == ref.shape and np.array_equal(ang, ref))
+                else:
+                    res["same"][tag] = bool(ang.shape == (t.n_frames, 0))
+    return res
+
+
 def main():
     req = json.loads(sys.stdin.read())
-    data = np.load(req["inputs"]) if (req.get("geom") or req.get("front")) else {}
+    data = np.load(req["inputs"]) if (req.get("geom") or req.get("front") or req.get("named")) else {}
     out, errors, topo_out = {}, {}, {}
     front_out = {}
     for c in req.get("front", []):
@@ -182,9 +207,15 @@ def main():
                 topo_out[str(k)]["history"] = hist
         except Exception as e:
             errors["t%d" % k] = "%s: %s" % (type(e).__name__, str(e)[:300])
-    if req.get("geom") or req.get("front"):
+    named_out = {}
+    for c in req.get("named", []):
+        try:
+            named_out[str(c["id"])] = run_named(c, data, out)
+        except Exception as e:
+            errors["n%d" % c["id"]] = "%s: %s" % (type(e).__name__, str(e)[:300])
+    if req.get("geom") or req.get("front") or req.get("named"):
         np.savez(req["outputs"], **out)
-    print(json.dumps({"errors": errors, "topo": topo_out, "front": front_out}))
+    print(json.dumps({"errors": errors, "topo": topo_out, "front": front_out, "named": named_out}))
 
 
 if __name__ == "__main__":
